@@ -143,6 +143,21 @@ def handle (op : String) (fs : List (String × String)) : String :=
         match components g with
         | none => "nil"
         | some l => "[" ++ ".".intercalate (l.map toString) ++ "]")
+  else if op == "glyf.decpure" then
+    -- direct predicate: the model's `decode`/`encode` are functions of their arguments, so the
+    -- caller's tables are the same after Decode + Encode and a second Decode agrees
+    match (getField fs "fmt").bind String.toInt?, (getField fs "loca").bind fromHex,
+        (getField fs "glyf").bind fromHex with
+    | some f, some l, some g =>
+      match decode f l g with
+      | .ok _ => "pure"
+      | .err _ => "rejected"
+      | .panic _ => "panic"
+    | _, _, _ => "bad-case"
+  else if op == "glyf.encpure" then
+    match (getField fs "gs").bind parseGlyphs with
+    | some _ => "pure"
+    | none => "bad-case"
   else if op == "glyf.fixenc" then
     -- direct predicate: the rewritten list (C11_components keeps it well-formed) round-trips
     -- (C11_roundtrip) and its loca offsets are even (C11_loca)
